@@ -29,6 +29,7 @@ class Ctx:
         self.axioms = {}
         self.build_s = 0
         self.notes = []
+        self.timeouts = 0
 
     @property
     def thorough(self):
@@ -161,7 +162,7 @@ def finish(ctx, rule, assumptions, extra=None):
             "trusted_base": TRUSTED_BASE,
             "evaluations": ctx.evaluations, "distinct_nontrivial": len(ctx.distinct), "rule": rule,
             "samples": ctx.cov["samples"] or ["(none)"], "streams": ctx.cov["streams"],
-            "correspondence_mismatches": len(ctx.mismatches),
+            "correspondence_mismatches": len(ctx.mismatches), "skipped_timeouts": ctx.timeouts,
             "known_findings": ctx.known, "notes": ctx.notes, "build_s": round(ctx.build_s, 1),
         },
         "assumptions": assumptions,
